@@ -56,6 +56,20 @@ func c14sGen(rnd *vRand, n int) []c14sCase {
 	add("stream", mk(&client.Message{Value: []byte{}, Key: []byte{}}))
 	add("stream", mk(&client.Message{AckInbox: "c14s.acks", CorrelationId: "cid", AckPolicy: client.AckPolicy_LEADER, Value: []byte("a")}))
 	add("stream", mk(&client.Message{AckInbox: "c14s.acks", CorrelationId: "cid", AckPolicy: client.AckPolicy_ALL, Value: []byte("a"), Offset: 77}))
+	// a stream on a WILDCARD subject: the NATS subject of a message is client input too (it ends up in
+	// the message's `subject` header and in the ack's MsgSubject). Kinds wild:<hex of the last token>.
+	for _, tok := range []string{"x", "\xff\xfe", "caf\xc3", "\xc0\x80", strings.Repeat("t", 300)} {
+		kind := "wild:" + hex.EncodeToString([]byte(tok))
+		add(kind, mk(&client.Message{AckInbox: "c14s.acks", CorrelationId: "cid", AckPolicy: client.AckPolicy_LEADER, Value: []byte("w")}))
+		add(kind, mk(&client.Message{AckInbox: "c14s.acks", CorrelationId: "cid", AckPolicy: client.AckPolicy_ALL, Value: []byte("w"), Offset: 5}))
+		add(kind, []byte("plain on a wildcard subject"))
+	}
+	// the REPLY subject of a NATS message is client input as well (kinds reply:<hex of the reply subject>)
+	for _, rep := range []string{"c14s.reply", "r.\xff", "\xc3", "r.caf\xe9.x"} {
+		kind := "reply:" + hex.EncodeToString([]byte(rep))
+		add(kind, mk(&client.Message{AckInbox: "c14s.acks", CorrelationId: "cid", AckPolicy: client.AckPolicy_LEADER, Value: []byte("r")}))
+		add(kind, []byte("plain with a reply subject"))
+	}
 	add("stream", []byte{})
 	add("stream", []byte("plain text payload"))
 	add("stream", c14sMagic)
@@ -188,6 +202,11 @@ func TestVerifC14ServerChild(t *testing.T) {
 		t.Fatal(err)
 	}
 	cancel()
+	ctx, cancel = context.WithTimeout(context.Background(), 10*time.Second)
+	if _, err := s.api.CreateStream(ctx, &client.CreateStreamRequest{Name: "c14w", Subject: "c14w.*", Partitions: 1, ReplicationFactor: 1}); err != nil {
+		t.Fatal(err)
+	}
+	cancel()
 	var p *partition
 	for dl := time.Now().Add(5 * time.Second); time.Now().Before(dl); time.Sleep(2 * time.Millisecond) {
 		if p = s.metadata.GetPartition("c14s", 0); p != nil {
@@ -222,6 +241,32 @@ func TestVerifC14ServerChild(t *testing.T) {
 			}
 		}
 	}()
+	pw := s.metadata.GetPartition("c14w", 0)
+	for dl := time.Now().Add(5 * time.Second); time.Now().Before(dl); time.Sleep(2 * time.Millisecond) {
+		if pw = s.metadata.GetPartition("c14w", 0); pw != nil {
+			if l, _ := pw.GetLeader(); l == "c14s" && pw.log != nil {
+				break
+			}
+		}
+	}
+	wsub, st := pw.Subscribe(sctx, &client.SubscribeRequest{Stream: "c14w", StartPosition: client.StartPosition_EARLIEST})
+	if st != nil {
+		t.Fatal(st.Err())
+	}
+	defer wsub.Close()
+	wdelivered := make(chan *client.Message, 4096)
+	go func() {
+		for {
+			select {
+			case m := <-wsub.Messages():
+				wdelivered <- m
+			case <-wsub.Errors():
+				return
+			case <-sctx.Done():
+				return
+			}
+		}
+	}()
 	subjects := map[string]string{
 		"stream": p.getSubject(), "replicate": p.getReplicationRequestInbox(), "offset": p.getLeaderOffsetRequestInbox(),
 		"serverinfo": s.getServerInfoInbox(), "status": s.getPartitionStatusInbox("c14s"),
@@ -233,6 +278,58 @@ func TestVerifC14ServerChild(t *testing.T) {
 		c := cases[i]
 		say("start %d", i)
 		before := p.log.NewestOffset()
+		if strings.HasPrefix(c.subject, "wild:") || strings.HasPrefix(c.subject, "reply:") {
+			subj, reply := "c14w.x", "c14s.reply"
+			if strings.HasPrefix(c.subject, "wild:") {
+				tok, _ := hex.DecodeString(strings.TrimPrefix(c.subject, "wild:"))
+				subj = "c14w." + string(tok)
+			} else {
+				r, _ := hex.DecodeString(strings.TrimPrefix(c.subject, "reply:"))
+				reply = string(r)
+			}
+			wbefore := pw.log.NewestOffset()
+			if err := nc.PublishRequest(subj, reply, c.data); err != nil {
+				say("note %d publish refused by the NATS client: %v", i, err)
+				say("ok %d", i)
+				continue
+			}
+			nc.Flush()
+			for dl := time.Now().Add(2 * time.Second); pw.log.NewestOffset() == wbefore && time.Now().Before(dl); {
+				time.Sleep(time.Millisecond)
+			}
+			time.Sleep(20 * time.Millisecond) // the ack is sent from the partition's goroutine
+			if pw.log.NewestOffset() != wbefore+1 {
+				say("spec %d not-stored newest=%d before=%d", i, pw.log.NewestOffset(), wbefore)
+				continue
+			}
+			var got *client.Message
+			select {
+			case got = <-wdelivered:
+			case <-time.After(3 * time.Second):
+				say("spec %d not-delivered", i)
+				continue
+			}
+			want := c.data
+			if m, uerr := proto.UnmarshalPublish(c.data); uerr == nil {
+				want = m.Value
+			}
+			if !bytes.Equal(got.Value, want) || got.Offset != wbefore+1 {
+				say("spec %d value-differs got=%x want=%x", i, got.Value, want)
+				continue
+			}
+			if !bytes.Equal(got.Headers["subject"], []byte(subj)) || !bytes.Equal(got.Headers["reply"], []byte(reply)) {
+				say("spec %d subject-header-differs subject=%x reply=%x", i, got.Headers["subject"], got.Headers["reply"])
+				continue
+			}
+			// what the gRPC layer does with every message of a subscription before it reaches a client: a stored
+			// message that cannot be marshalled ends every subscription that reaches it (nobody can read past it)
+			if _, merr := pb.Marshal(got); merr != nil {
+				say("spec %d stored-message-undeliverable %v", i, merr)
+				continue
+			}
+			say("ok %d", i)
+			continue
+		}
 		if err := nc.PublishRequest(subjects[c.subject], "c14s.reply", c.data); err != nil {
 			say("spec %d publish-error %v", i, err)
 			continue
